@@ -1,4 +1,6 @@
+mod bounds;
 mod cmp;
+mod props_bounds;
 mod eval;
 mod gate;
 mod index;
@@ -46,6 +48,8 @@ fn main() {
     let code = match id.as_str() {
         "C01" => props::c01(&cx),
         "C02" => props::c02(&cx),
+        "C03" => props_bounds::c03(&cx),
+        "C04" => props_bounds::c04(&cx),
         "C05" => props::c05(&cx),
         "C06" => props::c06(&cx),
         "C17" => props::c17(&cx),
